@@ -924,14 +924,59 @@ type Assume struct {
 	Val bool
 }
 
+// CondEval decides a branch condition itself: it gets the condition and the
+// integer constants the path assigned to phis.
+type CondEval func(cond ssa.Value, phiInts map[*ssa.Phi]int64) (val, known bool)
+
+var activeCondEval CondEval // set for the duration of PrunedCanReachEval (single-threaded analyser)
+
+func PrunedCanReachEval(fn *ssa.Function, from ssa.Instruction, assumes []Assume, eval CondEval, target, stop instrPred) (bool, []*ssa.BasicBlock) {
+	activeCondEval = eval
+	defer func() { activeCondEval = nil }()
+	return PrunedCanReach(fn, from, assumes, target, stop)
+}
+
 func condValue(cond ssa.Value, assumes []Assume) (bool, bool) {
 	return condValuePhi(cond, assumes, nil)
 }
 
 func condValuePhi(cond ssa.Value, assumes []Assume, phiVals map[*ssa.Phi]bool) (bool, bool) {
+	return condValuePhiInt(cond, assumes, phiVals, nil)
+}
+
+func condValuePhiInt(cond ssa.Value, assumes []Assume, phiVals map[*ssa.Phi]bool, phiInts map[*ssa.Phi]int64) (bool, bool) {
 	if u, ok := cond.(*ssa.UnOp); ok && u.Op == token.NOT {
-		v, known := condValuePhi(u.X, assumes, phiVals)
+		v, known := condValuePhiInt(u.X, assumes, phiVals, phiInts)
 		return !v, known
+	}
+	// comparison of an integer phi the path assigned a constant to
+	if bo, ok := cond.(*ssa.BinOp); ok && phiInts != nil {
+		if ph, isPhi := bo.X.(*ssa.Phi); isPhi {
+			if x, known := phiInts[ph]; known {
+				if k, isK := bo.Y.(*ssa.Const); isK && k.Value != nil && k.Value.Kind() == constant.Int {
+					y := k.Int64()
+					switch bo.Op {
+					case token.EQL:
+						return x == y, true
+					case token.NEQ:
+						return x != y, true
+					case token.LSS:
+						return x < y, true
+					case token.LEQ:
+						return x <= y, true
+					case token.GTR:
+						return x > y, true
+					case token.GEQ:
+						return x >= y, true
+					}
+				}
+			}
+		}
+	}
+	if activeCondEval != nil {
+		if v, known := activeCondEval(cond, phiInts); known {
+			return v, true
+		}
 	}
 	if k, ok := cond.(*ssa.Const); ok && k.Value != nil && k.Value.Kind() == constant.Bool {
 		return constant.BoolVal(k.Value), true
@@ -966,18 +1011,22 @@ func PrunedCanReach(fn *ssa.Function, from ssa.Instruction, assumes []Assume, ta
 		start   int
 		trail   []*ssa.BasicBlock
 		phiVals map[*ssa.Phi]bool
+		phiInts map[*ssa.Phi]int64
 	}
 	var work []item
 	if from == nil {
-		work = append(work, item{fn.Blocks[0], nil, 0, nil, nil})
+		work = append(work, item{fn.Blocks[0], nil, 0, nil, nil, nil})
 	} else {
-		work = append(work, item{from.Block(), nil, instrIndex(from) + 1, nil, nil})
+		work = append(work, item{from.Block(), nil, instrIndex(from) + 1, nil, nil, nil})
 	}
 	seen := map[string]bool{}
-	keyOf := func(b *ssa.BasicBlock, pv map[*ssa.Phi]bool) string {
+	keyOf := func(b *ssa.BasicBlock, pv map[*ssa.Phi]bool, pi map[*ssa.Phi]int64) string {
 		var parts []string
 		for ph, v := range pv {
 			parts = append(parts, fmt.Sprintf("%s=%v", ph.Name(), v))
+		}
+		for ph, v := range pi {
+			parts = append(parts, fmt.Sprintf("%s=%d", ph.Name(), v))
 		}
 		sort.Strings(parts)
 		return fmt.Sprintf("%d|%s", b.Index, strings.Join(parts, ","))
@@ -986,6 +1035,7 @@ func PrunedCanReach(fn *ssa.Function, from ssa.Instruction, assumes []Assume, ta
 		it := work[len(work)-1]
 		work = work[:len(work)-1]
 		pv := it.phiVals
+		pi := it.phiInts
 		if it.start == 0 {
 			// evaluate boolean phis of this block from the incoming edge
 			if it.pred != nil {
@@ -999,6 +1049,26 @@ func PrunedCanReach(fn *ssa.Function, from ssa.Instruction, assumes []Assume, ta
 					ph, ok := in.(*ssa.Phi)
 					if !ok {
 						break
+					}
+					if b, isB := ph.Type().Underlying().(*types.Basic); isB && b.Info()&types.IsInteger != 0 && idx >= 0 {
+						// integer phi: remember a constant assigned along this edge (parallel semantics: read the old map)
+						npi := map[*ssa.Phi]int64{}
+						for k, v := range pi {
+							npi[k] = v
+						}
+						delete(npi, ph)
+						switch e := ph.Edges[idx].(type) {
+						case *ssa.Const:
+							if e.Value != nil && e.Value.Kind() == constant.Int {
+								npi[ph] = e.Int64()
+							}
+						case *ssa.Phi:
+							if v, known := it.phiInts[e]; known {
+								npi[ph] = v
+							}
+						}
+						pi = npi
+						continue
 					}
 					if b, isB := ph.Type().Underlying().(*types.Basic); !isB || b.Kind() != types.Bool || idx < 0 {
 						continue
@@ -1014,7 +1084,7 @@ func PrunedCanReach(fn *ssa.Function, from ssa.Instruction, assumes []Assume, ta
 					pv = npv
 				}
 			}
-			k := keyOf(it.b, pv)
+			k := keyOf(it.b, pv, pi)
 			if seen[k] {
 				continue
 			}
@@ -1041,7 +1111,7 @@ func PrunedCanReach(fn *ssa.Function, from ssa.Instruction, assumes []Assume, ta
 		succs := it.b.Succs
 		if len(it.b.Instrs) > 0 {
 			if ifi, ok := it.b.Instrs[len(it.b.Instrs)-1].(*ssa.If); ok {
-				if v, known := condValuePhi(ifi.Cond, assumes, pv); known {
+				if v, known := condValuePhiInt(ifi.Cond, assumes, pv, pi); known {
 					if v {
 						succs = succs[:1]
 					} else {
@@ -1051,7 +1121,7 @@ func PrunedCanReach(fn *ssa.Function, from ssa.Instruction, assumes []Assume, ta
 			}
 		}
 		for _, s := range succs {
-			work = append(work, item{s, it.b, 0, trail, pv})
+			work = append(work, item{s, it.b, 0, trail, pv, pi})
 		}
 	}
 	return false, nil
